@@ -13,7 +13,7 @@ LEVEL = "model_checking"
 ENGINE = "E1 bounded-exhaustive generation-tree explorer"
 RULE = (
     "universe of U track headers (+1 pair absent from every file): all 2^U file subsets x all 2^(U+1) selections + None + "
-    "empty + tuple form; non-interference: one section's body replaced by 5 bodies (valid, empty, garbage, 2 invalid) x every "
+    "empty + tuple form + by-path entry point; non-interference: one section's body replaced by 5 bodies (valid, empty, garbage, 2 invalid) x every "
     "selection class; oracle = the unrestricted parse of the same text; distinct = distinct (text, selection); non-trivial = "
     "file and selection both non-empty"
 )
@@ -87,7 +87,8 @@ def run_shard(shard, ctx):
             sel = [pairs[j] for j in range(U + 1) if sm >> j & 1]
             keys = {"%s/%s" % tuple(p) for p in sel} & present
             exp = ["ok", restrict(full[1], keys)]
-            for via in ("file", "file-tuple") if sm % 5 == 0 else ("file",):
+            vias = ("file",) + (("file-tuple",) if sm % 5 == 0 else ()) + (("path", "path-bom") if sm % 7 == 3 else ())
+            for via in vias:
                 ctx.case((text, tuple(map(tuple, sel)), via), nontrivial=bool(fm and sm), sample=lambda: dict(file_tracks=sorted(present), selection=sel))
                 ctx.evaluations += 1
                 ctx.hist["selected_%d" % len(keys)] += 1
